@@ -48,6 +48,8 @@ func c01SqlErr(class string) error {
 		return context.DeadlineExceeded
 	case "brkopen":
 		return breaker.ErrServiceUnavailable
+	case "wbrkopen":
+		return fmt.Errorf("wrapped: %w", breaker.ErrServiceUnavailable)
 	case "other":
 		return errors.New("c01 other")
 	}
@@ -56,7 +58,7 @@ func c01SqlErr(class string) error {
 
 func TestVerifC01Sqlx(t *testing.T) {
 	good := []string{"nil", "norows", "wnorows", "txdone", "canceled", "wcanceled", "accerr", "waccerr"}
-	bad := []string{"other", "deadline", "brkopen", "custom"}
+	bad := []string{"other", "deadline", "brkopen", "wbrkopen", "custom"}
 	ua := func(r *verifh.Rng, c *verifc01.Call) { c.UserAcc = r.Chance(1, 3) }
 	specs := []verifc01.SiteSpec{
 		{Site: "sqlexec", Good: good, Bad: bad, Flags: ua},
